@@ -135,7 +135,9 @@ def run_bwe(case: dict) -> Outcome:
                 return Outcome(f"REMB does not round-trip estimate {e}", "remb-roundtrip", True)
             if sorted(ssrcs) != sorted(seen) or len(set(ssrcs)) != len(ssrcs):
                 return Outcome(f"REMB SSRC list {ssrcs} != SSRCs seen {seen}", "ssrc-list", True, tuple(sorted(classes)))
-            usage = log[-1][0]
+            # "detected over-use" is the detector's hypothesis at the moment the estimate is reported (not whatever
+            # the estimator chose to pass to its rate controller)
+            usage = est.detector.state()
             bound = int(1.5 * m_latest) + 10000
             if e > max(prev_e, bound):
                 return Outcome(f"estimate rose to {e} > 1.5 x {m_latest} + 10000 (previous {prev_e})", "rise-bound", True,
